@@ -210,17 +210,21 @@ def skeletons(tier):
     if tier == "quick":
         out = [s for s in out if not (s["precision"] == "single" and s["shape"] == (8, 12))]
         out += [dict(shape=(4, 6), levels=0, modes=MODES[1], precision="double", analytic=False, halo_given=True)]
+    # an explicit halo of exactly zero (a falsy value): its own discrete class
+    out += [dict(shape=(4, 6), levels=lv, modes=MODES[0], precision="double", analytic=False, halo_given=True, halo_zero=True) for lv in (0, 1)]
     return out
 
 
 STAND_IN = dict(halo=17.0, bg=0.4, xm=12.0, ym=9.0, xmx=60.0, ymx=36.0)
 
 
-def values(prefix):
+def values(prefix, halo_zero=False):
     """tagged stand-in values for one request; z3 vars named prefix_slot"""
     v = {}
     for s in ("halo", "bg", "xm", "ym", "xmx", "ymx"):
         v[s] = TF(STAND_IN[s], z3.Real("%s_%s" % (prefix, s)))
+    if halo_zero:
+        v["halo"] = TF(0.0, z3.Real("%s_halo" % prefix))
     zc = np.linspace(0.05, 2.5, NZ)
     t = (zc - zc[0]) / (zc[-1] - zc[0])
     v["z"] = tagged_array(zc, [z3.Real("%s_z%d" % (prefix, i)) for i in range(NZ)])
@@ -246,7 +250,7 @@ class Recorder:
 
 def record(sk, prefix, patch=None, footprint=True):
     sym, cache_mod, L = load_stack(patch)
-    v = values(prefix)
+    v = values(prefix, sk.get("halo_zero", False))
     rec = Recorder(cache_mod)
     q = np.ones(sk["shape"])
     sym.S(q, v["z"], v["prof"], (v["xmx"], v["ymx"]), LEVELS[sk["levels"]], modes=sk["modes"], meas_pt=(v["xm"], v["ym"]),
@@ -337,6 +341,7 @@ def part_a(run, patch=None, account=True):
         eq = tokens_equal(g, p)
         s = z3.Solver()
         s.add(domain_assumptions(va))
+        s.add(va["halo"] == 0 if sk.get("halo_zero") else va["halo"] > 0)
         s.add(z3.BoolVal(True) if eq is None else z3.Not(z3.And(eq)) if eq else z3.BoolVal(False))
         scn = dict(skeleton=sk, kind="identical repeat")
         if solve(s, "identical_request_is_served_from_cache", scn) == "sat":
@@ -358,10 +363,11 @@ def part_a(run, patch=None, account=True):
         else:
             cond = z3.And(eq) if eq else z3.BoolVal(True)
         # halo=None means halo=max(domain): compare the resolved widths, not the spelling
-        disc1 = {k: v for k, v in sk1.items() if k != "halo_given"}
-        disc2 = {k: v for k, v in sk2.items() if k != "halo_given"}
+        disc1 = {k: v for k, v in sk1.items() if k not in ("halo_given", "halo_zero")}
+        disc2 = {k: v for k, v in sk2.items() if k not in ("halo_given", "halo_zero")}
         ha = va["halo"] if sk1["halo_given"] else va["xmx"]
         hb = vb["halo"] if sk2["halo_given"] else vb["xmx"]
+        zero_side = ([va["halo"] == 0] if sk1.get("halo_zero") else [va["halo"] > 0]) + ([vb["halo"] == 0] if sk2.get("halo_zero") else [vb["halo"] > 0])
         if disc1 != disc2:
             differ = z3.BoolVal(True)
         else:
@@ -369,6 +375,7 @@ def part_a(run, patch=None, account=True):
         s = shared
         s.push()
         s.add(cond, differ)
+        s.add(zero_side)
         scn = dict(stored=sk1, requested=sk2)
         r_ = solve(s, "stored_entry_never_answers_a_different_request", scn)
         m = s.model() if r_ == "sat" else None
@@ -423,7 +430,8 @@ def _request(sk, model):
         prof.append(np.clip(a, -50, 50))
     dom = (float(np.clip(g("xmx", 60.0), 10, 1e3)), float(np.clip(g("ymx", 36.0), 10, 1e3)))
     kw = dict(modes=tuple(sk["modes"]), meas_pt=(float(g("xm", 12.0)), float(g("ym", 9.0))), srf_bg_conc=float(g("bg", 0.4)),
-              footprint=True, analytic=sk["analytic"], halo=(float(np.clip(g("halo", 17.0), 0, 200)) if sk["halo_given"] else None),
+              footprint=True, analytic=sk["analytic"],
+              halo=(0.0 if sk.get("halo_zero") else (float(np.clip(g("halo", 17.0), 0.5, 200)) if sk["halo_given"] else None)),
               precision=sk["precision"])
     return np.ones(tuple(sk["shape"])), z, tuple(prof), dom, LEVELS[sk["levels"]], kw
 
